@@ -124,6 +124,10 @@ MoveTree(f, src, dst, blank) ==
                      ELSE IF q \in Under(src) \/ q \in Under(dst) THEN blank ELSE f[q]]
 Erase(f, p, blank) == [q \in Paths |-> IF q \in Under(p) THEN blank ELSE f[q]]
 
+\* the kind an entry was recorded with (bzr): what it had in the basis, or what was on disk when it was added.  It differs
+\* from the disk only after rename_one recorded the move of a removed file onto an existing directory (or vice versa).
+RecKind(p) == IF ver[p] = "new" THEN disk[p].k ELSE IF ver[p] = "no" THEN "none" ELSE basis[ver[p]].k
+
 (* ------------------------------------------------------------------ add / mkdir *)
 \* a set of results: adding what is versioned already changes nothing; whether it raises differs by format
 \* (WorkingTree3 raises AlreadyVersionedError, dirstate trees return silently)
@@ -132,6 +136,7 @@ AddRes(p) ==
     ELSE IF Flavour = "git" THEN {IF disk[p].k = "file" THEN Ok(disk, [ver EXCEPT ![p] = "new"]) ELSE Ok(disk, ver)}
     ELSE IF ver[p] # "no" THEN {Ok(disk, ver), Rej("rejected:already-versioned")}
     ELSE IF ~VerB(ver, Par(p)) THEN {Rej("rejected:parent-not-versioned")}
+    ELSE IF Par(p) # "" /\ RecKind(Par(p)) # "dir" THEN {Rej("rejected:parent-entry-is-no-directory")}
     ELSE {Ok(disk, [ver EXCEPT ![p] = "new"])}
 Add(p) == /\ p \in Paths /\ \E r \in AddRes(p) : Step(r)
 
@@ -239,8 +244,10 @@ RevertRes(S) ==
         stays(p) == /\ ~inB(p) /\ Has(disk, p) /\ ~movedHere(p)
                     /\ addedDir(p) => \E q \in Kids(p) : Has(disk, q) /\ ~movedHere(q)
         d1 == [p \in Paths |-> IF inB(p) THEN bt[p] ELSE IF stays(p) THEN disk[p] ELSE NONE]
-        \* left-overs below a path that is no directory any more went away with what was moved aside
-        d2 == [p \in Paths |-> IF Par(p) # "" /\ d1[Par(p)].k # "dir" /\ ~inB(p) THEN NONE ELSE d1[p]]
+        \* what occupies the path of a basis entry without being that entry is moved aside (bzr)
+        replaced(q) == Flavour = "bzr" /\ inB(q) /\ Has(disk, q) /\ ver[q] \in {"no", "new"}
+        \* left-overs below a path that is no directory any more, or that was moved aside, went away with it
+        d2 == [p \in Paths |-> IF Par(p) # "" /\ ~inB(p) /\ (d1[Par(p)].k # "dir" \/ replaced(Par(p))) THEN NONE ELSE d1[p]]
     IN Res(d2, CleanVer(basis), basis, "ok")
 RevertTo(S) == /\ S \in SUBSET RevertCands /\ Step(RevertRes(S))
 Revert == \E S \in SUBSET Paths : RevertTo(S)
